@@ -80,11 +80,7 @@ func cmdRecord(args []string) int {
 			}
 			index = append(index, CallIndex{FirstLine: first, LastLine: tw.Lines, Session: s, Recipe: recipe,
 				InputB64: base64.StdEncoding.EncodeToString(b), Input: printable(b), Output: printable(cr.Output)})
-			for _, p := range splitProps(*props) {
-				if o := Oracles[p]; o != nil {
-					res.violate(o(x), x, res.Job, seenV)
-				}
-			}
+			res.judge(splitProps(*props), x, seenV)
 		}
 	}
 	tw.Flush()
